@@ -455,6 +455,11 @@ func cmdCheck(args []string) int {
 	if *tier == "" {
 		*tier = os.Getenv("VERIF_TIER")
 	}
+	if *workers == 0 {
+		if n, err := strconv.Atoi(os.Getenv("VP_WORKERS")); err == nil && n > 0 {
+			*workers = n
+		}
+	}
 	if *tier == "" {
 		*tier = "quick"
 	}
